@@ -52,7 +52,9 @@ BOUNDS = {
         "methods {Mpfa, Mpsa, Biot}; split: C(3,3), C(4,2), T(2,2), C(5,3), T(3,2); variants {mixed, all-Dirichlet}; "
         "inverter {python, numba} (numba: mixed variant only); k = 1..num_cells, max_memory -> 2, 3 parts. partial (python inverter, mixed variant): "
         "C(3,3), C(4,2), T(2,2): every single cell, every pair of cells, every single face, every single node, node set of "
-        "every cell; routes 1, 2 (all families) and 3 (cells, faces); C(4,4): every single cell and face, routes 1-3."
+        "every cell; routes 1, 2 (all families) and 3 (cells, faces); C(4,4): every single cell and face, routes 1-3. Scale axis: "
+        "C(4,2) *1e-3 and T(2,2) *1e3 (split and single-cell partial). Purity digest of grid / tensors / boundary objects / "
+        "target arrays around every call; reuse (second discretize on the same dictionary, python inverter) in split."
     ),
     "thorough": (
         "quick + numba inverter for the all-Dirichlet variant + 3-d grids C(2,2,2), Tet(1,1,1), Tet(2,1,1) for split and partial (single cells/faces/nodes, pairs of "
@@ -115,6 +117,15 @@ def _data(g, info, method, variant, inv, alt=(), extra=None):
     return data, kw
 
 
+def _arg_objects(data, kw):
+    """The argument objects whose content must not change: tensors, boundary conditions, index arrays."""
+    import porepy as pp
+
+    par = data[pp.PARAMETERS][kw]
+    return [par[k] for k in sorted(par) if k in ("bc", "second_order_tensor", "fourth_order_tensor", "scalar_vector_mappings",
+                                                 "specified_cells", "specified_faces", "specified_nodes")]
+
+
 def _discr(method, kw):
     import porepy as pp
 
@@ -168,9 +179,10 @@ def _cmp(ref, got, rows_of=None, what=""):
 G2 = {
     "C33": {"kind": "C", "n": [3, 3]}, "C42": {"kind": "C", "n": [4, 2]}, "T22": {"kind": "T", "n": [2, 2]},
     "C53": {"kind": "C", "n": [5, 3]}, "T32": {"kind": "T", "n": [3, 2]}, "C44": {"kind": "C", "n": [4, 4]},
+    "C42s": {"kind": "C", "n": [4, 2], "scale": 1e-3}, "T22s": {"kind": "T", "n": [2, 2], "scale": 1e3},
 }
 G3 = {"C222": {"kind": "C", "n": [2, 2, 2]}, "Tet111": {"kind": "Tet", "n": [1, 1, 1]}, "Tet211": {"kind": "Tet", "n": [2, 1, 1]}}
-NCELLS = {"C33": 9, "C42": 8, "T22": 8, "C53": 15, "T32": 12, "C44": 16, "C222": 8, "Tet111": 6, "Tet211": 12}
+NCELLS = {"C42s": 8, "T22s": 8, "C33": 9, "C42": 8, "T22": 8, "C53": 15, "T32": 12, "C44": 16, "C222": 8, "Tet111": 6, "Tet211": 12}
 GRIDS = dict(G2, **G3)
 
 
@@ -184,6 +196,11 @@ def cases(tier):
                     if tier == "quick" and inv == "numba" and variant == 1:
                         continue
                     out.append({"part": "split", "method": m, "grid": gk, "variant": variant, "inv": inv})
+    for m in METHODS:  # scale axis (python inverter, mixed variant)
+        for gk in ("C42s", "T22s"):
+            out.append({"part": "split", "method": m, "grid": gk, "variant": 0, "inv": "python"})
+            for mech in (1, 2, 3):
+                out.append({"part": "partial", "method": m, "grid": gk, "family": "cell1", "mech": mech, "inv": "python", "slice": [0, 1]})
     pgrids = ["C33", "C42", "T22"]
     for m in METHODS:
         for gk in pgrids:
@@ -265,14 +282,26 @@ def _run_split(case, out):
         nparts, proper = _split_class(g, k)
         key = (method, gk, variant, inv, name, int(val)) if (nparts >= 2 and proper) else None
         try:
+            args = _arg_objects(data, kw)
+            dg0 = G.digest(g, args)
             _discr(method, kw).discretize(g, data)
             got = _flat(data[pp.DISCRETIZATION_MATRICES][kw])
+            pure = G.digest(g, args) == dg0
+            again = None
+            if inv == "python":
+                _discr(method, kw).discretize(g, data)  # reuse: same data dictionary, same argument objects
+                again = _flat(data[pp.DISCRETIZATION_MATRICES][kw])
         except Exception as e:
             out.violate("split discretization raised", error=repr(e), method=method, grid=gk, variant=variant, inverter=inv,
                         partition_arguments={name: int(val)})
             out.ev("exception", key)
             continue
         bad = _cmp(ref, got, what="split discretization differs from the one-piece discretization")
+        if bad is None and not pure:
+            bad = {"what": "discretize modified its arguments (grid / tensors / boundary conditions)"}
+        if bad is None and again is not None:
+            if set(again) != set(got) or any(not np.array_equal(again[k], got[k]) for k in got):
+                bad = {"what": "second discretize on the same data dictionary gives different matrices"}
         if bad:
             out.violate(bad.pop("what"), method=method, grid=gk, variant=variant, inverter=inv,
                         partition_arguments={name: int(val)}, parts=nparts, **bad)
@@ -376,6 +405,7 @@ def _run_partial(case, out):
         idx_arr = np.array(idx, dtype=int)
         desc = {"method": method, "grid": gk, "route": mech, "target_kind": kind, "target": idx, "inverter": inv}
         tkey = (method, gk, mech, fam, inv, tuple(idx))
+        dg_grid = G.digest(g, idx_arr)
         try:
             if mech == 1:
                 data, kw = _data(g, info, method, variant, inv, extra={"specified_" + kind: idx_arr})
@@ -397,6 +427,10 @@ def _run_partial(case, out):
                 _discr(method, kw).update_discretization(g, data)
             got = _flat(data[pp.DISCRETIZATION_MATRICES][kw])
             active_faces = np.asarray(data[pp.PARAMETERS][kw].get("active_faces", np.arange(g.num_faces)), dtype=int)
+            if G.digest(g, idx_arr) != dg_grid or not np.array_equal(idx_arr, np.array(idx, dtype=int)):
+                out.violate("partial discretization modified the grid or the target index array", **desc)
+                out.ev("VIOLATION", tkey)
+                continue
         except Exception as e:
             out.violate("partial discretization raised", error=repr(e), **desc)
             out.ev(f"exception/{method}/m{mech}", tkey)
